@@ -184,3 +184,70 @@ package syncx
 //@   prop C18
 //@   requires pool != nil
 //@   ensures [max-age-set] pool.maxAge == duration
+
+// ---- constructors: nothing shared between instances ----
+// A resource manager has its own (empty) resource map and its own single-flight group: two managers asked for
+// the same key never serve each other's callers.
+//@ func NewResourceManager
+//@   prop C18
+//@   opaque NewSingleFlight
+//@   ensures [own-map-and-own-flight-group] result != nil && fresh(result) && result.resources != nil && fresh(result.resources) && calls(NewSingleFlight) == 1 && result.singleFlight == ret(NewSingleFlight)
+//@   ensures [starts-empty] forallk(k, string, !has(result.resources, k))
+//@ func NewSingleFlight
+//@   prop C18
+//@   ensures [own-empty-call-table] typeis(result, ptr(flightGroup)) && fresh(unbox(result, ptr(flightGroup))) && unbox(result, ptr(flightGroup)).calls != nil && fresh(unbox(result, ptr(flightGroup)).calls) && forallk(k, string, !has(unbox(result, ptr(flightGroup)).calls, k))
+//@ func NewLockedCalls
+//@   prop C18
+//@   ensures [own-empty-call-table] typeis(result, ptr(lockedGroup)) && fresh(unbox(result, ptr(lockedGroup))) && unbox(result, ptr(lockedGroup)).m != nil && fresh(unbox(result, ptr(lockedGroup)).m) && forallk(k, string, !has(unbox(result, ptr(lockedGroup)).m, k))
+
+// ---- SpinLock: the word is 0 (free) or 1 (held); one atomic step per attempt; an attempt succeeds exactly when
+// the lock was free and a failed attempt leaves the word alone (so no number of failed attempts can free it) ----
+//@ func (*SpinLock).TryLock
+//@   prop C18
+//@   requires l != nil && (l.lock == 0 || l.lock == 1)
+//@   ensures [acquired-exactly-when-free] result == (old(l.lock) == 0)
+//@   ensures [held-afterwards-failed-attempt-changes-nothing] l.lock == 1 && (!result ==> l.lock == old(l.lock))
+//@   ensures [one-atomic-step] calls(on("atomic", &l.lock)) == 1
+//@ func (*SpinLock).Unlock
+//@   prop C18, C09
+//@   requires l != nil
+//@   modifies l.lock
+//@   ensures [free-afterwards] l.lock == 0 && calls(on("atomic", &l.lock)) == 1
+//@ func (*SpinLock).Lock
+//@   prop C18, C09
+//@   opaque TryLock, Gosched
+//@   requires l != nil
+//@   modifies l.lock
+//@   ensures [returns-only-after-an-attempt-succeeded] ret(l.TryLock, 0, last)
+
+// ---- OnceGuard: exactly the first Take wins; Taken reports it ----
+//@ func (*OnceGuard).Take
+//@   prop C18
+//@   requires og != nil && (og.done == 0 || og.done == 1)
+//@   ensures [first-take-wins] result == (old(og.done) == 0) && og.done == 1 && calls(on("atomic", &og.done)) == 1
+//@ func (*OnceGuard).Taken
+//@   prop C18
+//@   requires og != nil
+//@   ensures [reports] result == (og.done == 1) && og.done == old(og.done)
+
+// ---- Barrier / Guard: fn runs once, between taking and releasing the lock (released also when fn panics) ----
+//@ func Guard
+//@   prop C18
+//@   inline always
+//@   may-panic fn
+//@   ensures [fn-under-the-lock] calls(lock.Lock) == 1 && calls(fn) == 1 && calls(lock.Unlock) == 1 && before(lock.Lock, fn) && before(fn, lock.Unlock)
+//@   panic-ensures [released-on-panic] calls(lock.Lock) == 1 && calls(lock.Unlock) == 1
+//@ func (*Barrier).Guard
+//@   prop C18
+//@   inline always
+//@   requires b != nil
+//@   ensures [fn-under-its-own-lock] calls(on("lock", b.lock)) == 1 && calls(fn) == 1 && calls(on("unlock", b.lock)) == 1 && before(on("lock", b.lock), fn) && before(fn, on("unlock", b.lock))
+
+// ---- DoneChan: closed at most once however often Close is called ----
+//@ func (*DoneChan).Close$1
+//@   prop C18
+//@   ensures [closes-its-channel] calls(on("close", dc.done)) == 1
+//@ func (*DoneChan).Done
+//@   prop C18
+//@   requires dc != nil
+//@   ensures [its-channel] result == dc.done
